@@ -422,14 +422,52 @@ def dispatch(prog: Program, rep) -> None:
         members = enum_members(prog, eq)
         seen: Dict[str, str] = {}
         classes: List[str] = []
+        # selection sites: `return Class(..)`, or `var = Class` where the function finally returns `var(..)`
+        sites = []
         for r in returns_of(f):
             v = r.value
             if not isinstance(v, ast.Call):
                 continue
-            cls_name = dotted(v.func) or ""
             tgt = prog.resolve_call_target(f, v)
-            if not any(isinstance(t, ClassInfo) for t in tgt):
-                continue  # e.g. params.step_solver(...) custom hook
+            if any(isinstance(t, ClassInfo) for t in tgt):
+                sites.append((r, dotted(v.func) or ""))
+            elif isinstance(v.func, ast.Name):
+                for q in ff.order:
+                    if isinstance(q.stmt, ast.Assign) and len(q.stmt.targets) == 1 and isinstance(q.stmt.targets[0], ast.Name) and q.index < ff.at(r).index:
+                        val = q.stmt.value
+                        if isinstance(val, (ast.Name, ast.Attribute)) and isinstance(prog.resolve_expr_static(f.module, val), ClassInfo):
+                            # does this class value flow to the called name?
+                            if U(ff.resolved(r, v.func)).find(U(val)) >= 0 or q.stmt.targets[0].id == v.func.id:
+                                sites.append((q.stmt, U(val)))
+        # table-driven form: for (member, cls) in TABLE: if key == member: return cls(..)
+        for q in ff.order:
+            if isinstance(q.stmt, ast.For) and isinstance(q.stmt.target, ast.Tuple) and len(q.stmt.target.elts) == 2:
+                tab = ff.resolved(q.stmt, q.stmt.iter)
+                if isinstance(tab, ast.Name):
+                    tv = prog.resolve_symbol(f.module, tab.id)
+                    tab = tv if isinstance(tv, ast.AST) else tab
+                    for n_ in f.module.tree.body:
+                        if isinstance(n_, ast.Assign) and any(isinstance(t, ast.Name) and t.id == U(q.stmt.iter) for t in n_.targets):
+                            tab = n_.value
+                if isinstance(tab, (ast.Tuple, ast.List)) and all(isinstance(e, ast.Tuple) and len(e.elts) == 2 for e in tab.elts):
+                    kn, cn = (U(e) for e in q.stmt.target.elts)
+                    body = [b for b in q.stmt.body]
+                    okb = len(body) == 1 and isinstance(body[0], ast.If) and not body[0].orelse and len(body[0].body) == 1 and isinstance(body[0].body[0], ast.Return) \
+                        and isinstance(body[0].body[0].value, ast.Call) and U(body[0].body[0].value.func) == cn
+                    t_ = body[0].test if okb else None
+                    okt = okb and isinstance(t_, ast.Compare) and len(t_.ops) == 1 and isinstance(t_.ops[0], ast.Eq) and kn in (U(t_.left), U(t_.comparators[0]))
+                    if not okt:
+                        raise AnalysisError(f"{f.short}: table-driven dispatch loop is not `for (member, cls) in TABLE: if key == member: return cls(..)`")
+                    for e in tab.elts:
+                        mm = enum_member(prog, f, e.elts[0], eq)
+                        if mm is None:
+                            rep.fail("dispatch-exhaustive", f.qualname, U(e), "VIOLATED: a dispatch table key is not a member of the enum", f.loc(q.stmt))
+                            continue
+                        if mm in seen:
+                            rep.fail("dispatch-exhaustive", f.qualname, U(e), f"VIOLATED: enum member {mm} appears twice in the dispatch table", f.loc(q.stmt))
+                        seen[mm] = U(e.elts[1])
+                        classes.append(U(e.elts[1]))
+        for r, cls_name in sites:
             mem = None
             for op, l, rr in ff.at(r).facts:
                 if op == "==" and rr is not None:
